@@ -69,7 +69,10 @@ Inductive src :=
 | SI (t : ity)          (* a C integer type *)
 | SF (prec : Z)         (* float (24) / double (53); sizeof = 4 / 8 *)
 | SInteger              (* Givaro::Integer *)
-| SRU (K : Z).          (* RecInt::ruint<K> : 2^K bits *)
+| SRU (K : Z)           (* RecInt::ruint<K> : 2^K bits *)
+| SLL (sgn : bool).     (* long long / unsigned long long: 64 bits like int64_t / uint64_t, but a DISTINCT type, so the
+                           non-template overloads written for int64_t / uint64_t are not selected *)
+Definition ll_as_int (s : src) : src := match s with SLL sgn => SI (Ity 64 sgn) | _ => s end.
 Definition fbits (prec : Z) : Z := if prec =? 24 then 32 else 64.
 
 (* ================================================================== 1. Modular<St, C>, St and C integral
@@ -119,7 +122,7 @@ Section ModIntegral.
     | SF prec =>
         if bits St <=? fbits prec then (if sg St then mi_init_float_s prec y else mi_init_float_u prec y)
         else (if sg St then mi_init_gen_s_float y else mi_init_gen_u_float y)
-    | SRU _ => None
+    | SRU _ | SLL _ => None
     end.
   (* constants (Modular_implem(const Residu_t p)):  zero 0, one 1, mOne = static_cast<Element>(p - static_cast<Element>(1)) *)
   Definition mi_mone : Z := cast St (p - 1).
@@ -153,7 +156,7 @@ Section ModFloating.
         if (sprec =? 53) && (prec =? 24) then      (* double -> float storage:  r = Caster<Element>(fmod(a, _pc));  if (r < 0) r += _pc *)
           let r := rnd prec (Z.rem a p) in Some (if r <? 0 then r + p else r)
         else Some (mf_reduce (rnd prec a))
-    | SRU _ => None
+    | SRU _ | SLL _ => None
     end.
   Definition mf_mone : Z := rnd prec (p - 1).
 End ModFloating.
@@ -181,6 +184,7 @@ Section Balanced.
           if 32 <=? bits T then
             if sg T then Some (normalise (Z.rem y p)) else Some (normalise_hi (Z.rem y p))
           else Some (normalise (Z.rem (rnd prec y) p))
+    | SLL _ => Some (normalise (Z.rem (rnd prec y) p))           (* generic template *)
     | SRU _ => None
     end.
   (* integral element (bits = 32 / 64) *)
@@ -194,6 +198,7 @@ Section Balanced.
           if sg T then Some (normalise (cast E (Z.rem y p)))            (* int64_t overload *)
           else Some (normalise_hi (cast E (Z.rem y p)))                 (* uint64_t overload *)
         else Some (normalise (Z.rem (cast E y) p))                      (* generic: r = Caster<Element>(a); reduce(r) *)
+    | SLL _ => Some (normalise (Z.rem (cast E y) p))                    (* generic template *)
     | SRU _ => None
     end.
 End Balanced.
@@ -235,6 +240,8 @@ Section Mont32.
           else Some (mg_to (a mod p))
         else                         (* generic template *)
           let r := (cast u32 (cabs T a)) mod p in Some (mg_to (if a <? 0 then mg_negin r else r))
+    | SLL sgn =>                     (* generic template: the value is truncated to uint32_t BEFORE it is reduced *)
+        let r := (cast u32 (cabs (Ity 64 sgn) a)) mod p in Some (mg_to (if a <? 0 then mg_negin r else r))
     | SRU _ => None
     end.
   (* convert:  Element c;  r = Caster<T>(redc(c, a)) *)
@@ -260,6 +267,7 @@ Section ModRuint.
     | SInteger => fin (ru_wrap (Z.abs a))                  (* the low 2^K bits of |a| *)
     | SRU K' => fin (ru_wrap a)
     | SF _ => obind (f2i u64 (Z.abs a)) (fun m => fin (ru_wrap m))
+    | SLL _ => None
     end.
 End ModRuint.
 
@@ -302,7 +310,7 @@ Section GFq.
           let tr := if x <=? - q then (- x) mod q else - x in
           if tr =? 0 then Some 0 else gf_idx (q - tr)
         else gf_idx (if q <=? x then x mod q else x)
-    | SRU _ => None
+    | SRU _ | SLL _ => None                    (* long long: the call is ambiguous, no such form *)
     end.
 End GFq.
 
@@ -328,7 +336,7 @@ Section Log16.
           let tr := if a <=? - p then cast i16 ((- a) mod p) else cast i16 (- a) in
           if tr =? 0 then Some 0 else lg_idx (p - wrapu 16 tr)
         else lg_idx (if p <=? a then cast i16 (a mod p) else cast i16 a)
-    | SRU _ => None
+    | SRU _ | SLL _ => None
     end.
 End Log16.
 
@@ -380,6 +388,7 @@ Section Extended.
             let r := Z.abs (Z.rem a p) in Some (if a <? 0 then ex_negin r else r)
           else Some (a mod p)
         else Some (ex_reduce (rnd prec a))
+    | SLL _ => Some (ex_reduce (rnd prec a))             (* generic *)
     | SRU _ => None
     end.
 End Extended.
@@ -400,14 +409,14 @@ Inductive ring :=
 (* init: raw element (index for the table rings) *)
 Definition init (R : ring) (s : src) (m x : Z) : option Z :=
   match R with
-  | RModI St => mi_init St m s x
-  | RModF prec => mf_init prec m s x
+  | RModI St => mi_init St m (ll_as_int s) x       (* templates selected by the properties of Source only *)
+  | RModF prec => mf_init prec m (ll_as_int s) x
   | RBalF prec => bf_init m prec s x
   | RBalI b => bi_init m b s x
   | RExt prec => ex_init prec m s x
   | RMont32 => mg_init m s x
   | RModZ => Some (mz_init m x)
-  | RModRU K => ru_init K m s x
+  | RModRU K => ru_init K m (ll_as_int s) x
   | RGFq b => gf_init b m s x
   | RLog16 => lg_init m s x
   end.
